@@ -5,6 +5,7 @@ import ast
 
 import z3
 
+from pyvc.state import FRESH_BASE, LOOP_BASE
 from pyvc.api import (FnCheck, ScanCheck, LoopSpec, Pure, Inline, register, Build, V, Val, SeqVal, IntS, RealS, BoolS,
                       StrS, NONE, Raise, Unsupported, fresh, vany, vint, vreal, vbool, vstr, vref, as_int, unbox_as,
                       truthy, field)
@@ -793,4 +794,196 @@ class ConsumerAddressesFrame(ScanCheck):
                         and not any(k in n.value for k in ('www.', 'schemas.', 'docs.', 'standards.', '.org')):
                     bad.append((m, n.lineno, n.value))
         out.append(('no_hardcoded_plaintext_scheme_in_consumer_urls', not bad, {'found': str(bad)[:200]}))
+        return out
+
+
+# --------------------------------------------------------------------------------------------------------------------
+# provider side: addresses placed in messages are built from base_urls, whose scheme is _urlschema
+DH = 'sdc11073.provider.dpwshostedservice'
+SB = 'sdc11073.provider.subscriptionmgr_base'
+
+
+@register
+class SubscribeResponseAddress(FnCheck):
+    id = 'C19.subscription_manager_address'
+    prop = 'C19'
+    opaque_ok = True
+    cvc5_first = True
+    target = f'{SB}:SubscriptionsManagerBase._mk_subscribe_response_message'
+    doc = ('the subscription manager address returned in a SubscribeResponse is "<scheme of base_urls[0]>://<its netloc>/..." '
+           '- it takes scheme and host from the provider\'s base url (C19.provider_base_urls), nothing from the request')
+
+    def setup(self, b):
+        st = b.st
+        self.scheme, self.netloc = b.str('scheme'), b.str('netloc')
+        url = b.obj('base_url', scheme=self.scheme, netloc=self.netloc)
+        urls = st.new_list([url])
+        consumed = b.obj('consumed_path_elements')
+        st.assume(z3.Select(st.get_arr('C'), consumed.e) == b.ex.ctx.builtin_class_ids['list'])
+        rd = b.obj('request_data', consumed_path_elements=consumed)
+        sub = b.obj('subscription', path_suffix=b.any('path_suffix', maybe_none=True), reference_parameters=b.any('refp'),
+                    remaining_seconds=b.any('remaining'))
+        b.st.assume(z3.Or(Val.is_none(b.symbols['path_suffix'].e), Val.is_str(b.symbols['path_suffix'].e)))
+        self.o = b.obj('self', cls=(SB, 'SubscriptionsManagerBase'), _msg_factory=b.obj('msg_factory'))
+        return self.o, [rd, sub, urls], {}
+
+    def callees(self, ex):
+        def response(ex_, st, args, kwargs):
+            o = st.alloc('SubscribeResponse')
+            m = st.alloc('EndpointReferenceType')
+            st.write_field(o, 'SubscriptionManager', m)
+            st.ghost['c:mgr'] = m
+            return o
+        return {'sdc11073.xml_types.eventing_types:SubscribeResponse': Pure(response, name='SubscribeResponse()'),
+                '*.SubscribeResponse': Pure(response, name='SubscribeResponse()'),
+                '*.join': Pure(lambda e, s, a, k: vstr(fresh(StrS, 'joined')), name='str.join'),
+                '*.mk_reply_soap_message': Pure(lambda e, s, a, k: s.alloc('CreatedMessage'), name='mk_reply_soap_message')}
+
+    def post(self, ex, st0, st, outcome, b):
+        if outcome[0] == 'exc':
+            ex.oblige(st, 'never_raises', z3.BoolVal(False), info={'exc': repr(outcome[1])})
+            return
+        m = st.ghost.get('c:mgr')
+        if m is None:
+            ex.oblige(st, 'address_takes_scheme_and_host_of_the_base_url', z3.BoolVal(False))
+            return
+        a = field(st, m, 'Address')
+        ex.oblige(st, 'address_takes_scheme_and_host_of_the_base_url', z3.And(Val.is_str(a), z3.PrefixOf(
+            z3.Concat(self.scheme.e, z3.StringVal('://'), self.netloc.e, z3.StringVal('/')), Val.s(a))))
+
+
+@register
+class HostedServiceAddresses(FnCheck):
+    id = 'C19.hosted_service_addresses'
+    prop = 'C19'
+    opaque_ok = True
+    cvc5_first = True
+    target = f'{DH}:DPWSHostedService.mk_dpws_hosted_instance'
+    doc = ('every endpoint address a hosted service puts into the DPWS metadata is "<geturl() of a provider base url>/'
+           '<path element>": one per base url, in order - the scheme is the one of the base url (C19.provider_base_urls)')
+
+    def setup(self, b):
+        st = b.st
+        L = b.ex.ctx.builtin_class_ids['list']
+        self.urls = z3.Const('base_urls', SeqVal)
+        urls = b.obj('base_urls')
+        st.assume(z3.Select(st.get_arr('C'), urls.e) == L)
+        st.assume(z3.Select(st.get_arr('L'), urls.e) == self.urls)
+        j = z3.Int('j!bu')
+        st.assume(z3.ForAll([j], z3.Implies(z3.And(0 <= j, j < z3.Length(self.urls)), z3.And(
+            Val.is_ref(self.urls[j]), Val.oid(self.urls[j]) > 0, Val.oid(self.urls[j]) < FRESH_BASE))))
+        dev = b.obj('sdc_device', base_urls=urls)
+        impls = b.obj('port_type_impls')
+        st.assume(z3.Select(st.get_arr('C'), impls.e) == L)
+        self.pe = b.str('path_element')
+        self.o = b.obj('self', cls=(DH, 'DPWSHostedService'), _sdc_device=dev, path_element=self.pe, port_type_impls=impls)
+        self.geturl = z3.Function('geturl', Val, StrS)
+        st.ghost['eprs'] = ()
+        return self.o, [], {}
+
+    def callees(self, ex):
+        def geturl(ex_, st, args, kwargs):
+            return vstr(self.geturl(st.ghost['c:recv']))
+
+        def epr(ex_, st, args, kwargs):
+            return st.alloc('EndpointReferenceType')
+
+        def hosted(ex_, st, args, kwargs):
+            o = st.alloc('HostedServiceType')
+            lst = st.new_list([])
+            st.write_field(o, 'EndpointReference', lst)
+            st.ghost['c:hosted'] = (o, lst)
+            return o
+        return {'*.geturl': Pure(geturl, name='SplitResult.geturl() (uninterpreted function of the url object)'),
+                'sdc11073.xml_types.addressing_types:EndpointReferenceType': Pure(epr, name='EndpointReferenceType()'),
+                'EndpointReferenceType': Pure(epr, name='EndpointReferenceType()'),
+                'sdc11073.xml_types.mex_types:HostedServiceType': Pure(hosted, name='HostedServiceType()'),
+                'sdc11073.xml_types.dpws_types:HostedServiceType': Pure(hosted, name='HostedServiceType()'),
+                'HostedServiceType': Pure(hosted, name='HostedServiceType()')}
+
+    def hooks(self, ex):
+        class H:
+            tracked_names = ()
+
+            def on_call(self, ex_, st, fv, keys, args, kwargs, node):
+                if fv.t == 'method':
+                    st.ghost['c:recv'] = st.box(fv.recv)
+                return None
+        return H()
+
+    def _ok(self, st, lst_seq, k):
+        j = z3.Int('j!ep')
+        addr = lambda v: z3.Select(st.get_arr('f:Address'), Val.oid(v))   # noqa: E731
+        # the endpoint records are the objects allocated by this loop (so the record of the next iteration is a new one)
+        return z3.And(z3.Length(lst_seq) == k, z3.ForAll([j], z3.Implies(z3.And(0 <= j, j < k), z3.And(
+            Val.is_ref(lst_seq[j]), Val.is_str(addr(lst_seq[j])),
+            Val.oid(lst_seq[j]) >= LOOP_BASE, z3.Select(st.get_arr('A'), Val.oid(lst_seq[j])),
+            Val.s(addr(lst_seq[j])) == z3.Concat(self.geturl(self.urls[j]), z3.StringVal('/'), self.pe.e)))))
+
+    def loops(self, ex):
+        def inv(ex_, st, env):
+            lst = ex_.concrete_kind(st, st.locals['endpoint_references_list'], ('ref',))
+            return z3.And(self._ok(st, st.list_seq(lst), env['_k']), env['_seq'] == self.urls)
+        return {0: LoopSpec(inv=inv, havoc_heap=['f:Address', 'L'])}
+
+    def post(self, ex, st0, st, outcome, b):
+        if outcome[0] == 'exc':
+            ex.oblige(st, 'never_raises', z3.BoolVal(False), info={'exc': repr(outcome[1])})
+            return
+        h = st.ghost.get('c:hosted')
+        if h is None:
+            ex.oblige(st, 'one_endpoint_per_base_url_with_its_scheme_and_host', z3.BoolVal(False))
+            return
+        ex.oblige(st, 'result_is_the_hosted_service_record', outcome[1].e == h[0].e if outcome[1].kind == 'ref' else z3.BoolVal(False))
+        ex.oblige(st, 'one_endpoint_per_base_url_with_its_scheme_and_host', self._ok(st, st.list_seq(h[1]), z3.Length(self.urls)))
+
+
+@register
+class ProviderBaseUrls(ScanCheck):
+    id = 'C19.provider_base_urls'
+    prop = 'C19'
+    doc = ('frame: SdcProvider.base_urls is assigned only in __init__ (empty) and in _start_services, there as a list of '
+           'SplitResult(self._urlschema, ...) objects - every base url carries _urlschema (https iff TLS is configured, '
+           'C19.provider_urlschema) - and exactly this list is handed to every subscriptions manager (set_base_urls); the '
+           'managers assign their base_urls only from the constructor / set_base_urls argument')
+
+    def scan(self, repo):
+        out = []
+        cdef = repo.module(PI).classes['SdcProvider']
+        sites = []
+        handed = []
+        for fn in [n for n in cdef.body if isinstance(n, ast.FunctionDef)]:
+            for n in ast.walk(fn):
+                if isinstance(n, ast.Assign):
+                    for t in n.targets:
+                        if isinstance(t, ast.Attribute) and t.attr == 'base_urls' and ast.unparse(t.value) == 'self':
+                            sites.append((fn.name, n.value))
+                if isinstance(n, ast.Call) and isinstance(n.func, ast.Attribute) and n.func.attr == 'set_base_urls':
+                    handed.append((fn.name, [ast.unparse(a) for a in n.args]))
+        ok = len(sites) == 2
+        for fname, v in sites:
+            if fname == '__init__':
+                ok = ok and isinstance(v, ast.List) and not v.elts
+            elif fname == '_start_services':
+                ok = ok and isinstance(v, ast.List) and len(v.elts) >= 1 and all(
+                    isinstance(e, ast.Call) and ast.unparse(e.func) in ('SplitResult', 'urllib.parse.SplitResult')
+                    and e.args and ast.unparse(e.args[0]) == 'self._urlschema' for e in v.elts)
+            else:
+                ok = False
+        out.append(('every_base_url_is_built_with_the_configured_scheme', ok, {'sites': str([(f, ast.unparse(v)) for f, v in sites])[:300]}))
+        out.append(('the_same_list_is_handed_to_every_subscriptions_manager',
+                    bool(handed) and all(a == ['self.base_urls'] for _, a in handed), {'calls': str(handed)}))
+        bad = []
+        for mname in (SB, 'sdc11073.provider.subscriptionmgr', 'sdc11073.provider.subscriptionmgr_async'):
+            mod = repo.module(mname)
+            for cname, cd in mod.classes.items():
+                for fn in [n for n in cd.body if isinstance(n, (ast.FunctionDef, ast.AsyncFunctionDef))]:
+                    for n in ast.walk(fn):
+                        if isinstance(n, ast.Assign):
+                            for t in n.targets:
+                                if isinstance(t, ast.Attribute) and t.attr == 'base_urls':
+                                    src = ast.unparse(n.value)
+                                    if not (fn.name in ('__init__', 'set_base_urls') and src in ('base_urls', 'None')):
+                                        bad.append((mname, cname, fn.name, src))
+        out.append(('managers_take_base_urls_only_from_the_provider', not bad, {'sites': str(bad)[:300]}))
         return out
